@@ -74,6 +74,7 @@ def world():
         r"^Vec::push$": lambda eng, ctx, f, path, args, dty: (eng.store_ptr(ctx, args[0], MS.lvec(tuple(MC.load(eng, ctx, args[0]).data) + (args[1],))), UNIT)[1],
         r"^Vec::extend_from_slice$": lambda eng, ctx, f, path, args, dty: (eng.store_ptr(ctx, args[0], MS.lvec(tuple(MC.load(eng, ctx, args[0]).data) + tuple(MC.load(eng, ctx, args[1]).data))), UNIT)[1],
         r"^<Vec as Deref>::deref$|^Vec::as_slice$": lambda eng, ctx, f, path, args, dty: MC.load(eng, ctx, args[0]),
+        r"^Vec::clear$": lambda eng, ctx, f, path, args, dty: (eng.store_ptr(ctx, args[0], MS.lvec(())), UNIT)[1],
         r"^Vec::is_empty$": lambda eng, ctx, f, path, args, dty: z3.BoolVal(len(MC.load(eng, ctx, args[0]).data) == 0),
         r"^Vec::len$": lambda eng, ctx, f, path, args, dty: bv(len(MC.load(eng, ctx, args[0]).data)),
     })
@@ -236,7 +237,14 @@ def scen_global_labels(e3):
             eng.store_ptr(ctx, p, Enum(1, {1: Agg({0: MC.kmap()})}, "Option"))
         return Ptr(p.root, p.path + (("variant", "Some"), 0))
     m = dict(m)
-    m2 = {r"Option::get_or_insert_with$": m_get_or_insert_with, r"as Into>::into$": models.m_identity}
+    san = z3.Function("sanitized", z3.IntSort(), z3.IntSort())       # sanitisation may change a name: nothing is assumed about it
+
+    def m_sanitize(eng, ctx, f, path, args, dty):
+        v = MC.load(eng, ctx, args[0])
+        if isinstance(v, Native) and v.kind == "astr":
+            return Native("astr", san(v.data))
+        raise sym.Unsupported(f"sanitize of {v}")
+    m2 = {r"Option::get_or_insert_with$": m_get_or_insert_with, r"as Into>::into$": models.m_identity, r"^sanitize_label_key$|^sanitize_metric_name$|^sanitize_label_value$": m_sanitize}
     m2.update(m)
     eng = sym.Engine(P, models=m2, loop_bound=4)
     eng.merging = False
@@ -277,11 +285,25 @@ def scen_global_labels(e3):
         except AttributeError:
             ok = z3.BoolVal(False)
         bad.append(z3.And(l.taken(), z3.Not(ok)))
+    def on_model(ob, model):
+        import replay_e3
+        ob.sample = {"note": "the stored name differs from the given one for some name (e.g. one that sanitisation changes); replayed with the global label `service.name` and a key label of the same name"}
+        os.makedirs(os.path.join(REPLAYS, "C07"), exist_ok=True)
+        pp = os.path.join(REPLAYS, "C07", "c07_global_labels.plan")
+        open(pp, "w").write(replay_e3.plan_text("c07_global_labels", ob.name.split(":")[1], {}, [], {}))
+        status, out = replay_e3.run("c07", pp)
+        ob.detail += f" | native replay (c07, builder + render + strict parser): {status}"
+        ob.sample["native_replay"] = {"status": status, "output": out[-500:]}
+        ob.replay = pp
+        ob.reproduced = status == "reproduced"
+        if not ob.reproduced:
+            ob.status = "error"
+            ob.detail += " — counterexample did NOT reproduce natively: treated as an encoder/model problem, not reported as a violation"
     bounds = f"PrometheusBuilder::add_global_label called twice with symbolic names and values (possibly the same name); {len(done)} paths"
     specs = [dict(name="c07_global_labels:witness", desc="returns", bounds=bounds, cons=[z3.Or(*[l.taken() for l in done] or [z3.BoolVal(False)])], expect_unsat=False),
              dict(name="c07_global_labels:returns", desc="panics", bounds=bounds, cons=[other], expect_unsat=True),
              dict(name="c07_global_labels:stored_under_the_given_name_latest_value_wins", desc="a global label is not stored under exactly the name given (which key labels are matched against), or an earlier value survives a later one",
-                  bounds=bounds, cons=[z3.Or(*bad or [z3.BoolVal(False)])], expect_unsat=True)]
+                  bounds=bounds, cons=[z3.Or(*bad or [z3.BoolVal(False)])], expect_unsat=True, on_model=on_model)]
     check.discharge_many(e3.res, specs, 60)
 
 
